@@ -365,7 +365,7 @@ fn check_output(ctx: &mut Ctx, level: &str, s: &Settings, input: &str, out: &str
 }
 
 fn gen_input(r: &mut Rng, one_para: bool) -> gen::GDoc {
-    let o = GOpts { max_paras: if one_para { 1 } else { 3 }, unicode: r.chance(1, 2), ..GOpts::default() };
+    let o = GOpts { max_paras: if one_para { 1 } else { 3 }, unicode: r.chance(1, 2), blank_continuations: r.chance(1, 2), ..GOpts::default() };
     let mut d = gen::gen_doc(r, &o);
     // values with commas so that the comma formatter has work to do
     let _ = &mut d;
